@@ -16,7 +16,7 @@ From Coq Require Import ZArith List Bool.
 From Synnax Require Import Cesium.Store Cesium.IndexSearch Cesium.Distance Cesium.Stamp
   Cesium.DeleteModel Cesium.GCModel Cesium.DeleteBase Cesium.DeleteSearch Cesium.DeleteDistance
   Cesium.DeleteOffsets Cesium.DeleteContent Cesium.DeleteExact Cesium.ReadExact Cesium.DeleteDB
-  Cesium.GCProofs Cesium.DeleteCheck Cesium.DeleteRefuted.
+  Cesium.GCProofs Cesium.DeleteCheck Cesium.DeleteRefuted Cesium.DeleteInv.
 Import ListNotations.
 Local Open Scope Z_scope.
 
@@ -79,12 +79,15 @@ Print Assumptions C04_stamp_selects.
    not, inside domains or in gaps, spanning zero, one or many domains), on ANY channel state
    satisfying the invariant: if it succeeds, the content afterwards is the content before
    minus exactly the samples stamped in [a,b), and the invariant holds again — so the
-   statement applies to every later delete (repeated, nested, overlapping). *)
+   statement applies to every later delete (repeated, nested, overlapping).  Every pointer
+   of the new state addresses the samples of an old pointer that belong to its own, narrower
+   time range ([refines_ptr]). *)
 Theorem C04_delete_exact_one_channel : forall P c a b c',
   widx P -> chan_ok (allst P) c -> a <= b ->
   dom_delete true P c (TR a b) = Ok c' ->
   chan_ok (allst P) c' /\
-  content (allst P) c' = filter (outside_ab a b) (content (allst P) c).
+  content (allst P) c' = filter (outside_ab a b) (content (allst P) c) /\
+  Forall (refines_ptr (allst P) c) (c_ptrs c').
 Proof. exact dom_delete_exact. Qed.
 Print Assumptions C04_delete_exact_one_channel.
 
@@ -187,11 +190,32 @@ Theorem C04_gc_delta_keys_disjoint : forall l1 p l2 q,
 Proof. exact sorted_split_not_contains. Qed.
 Print Assumptions C04_gc_delta_keys_disjoint.
 
+(* GC and reopen keep the full database invariant too (alignment with the index included),
+   so every delete theorem above applies again after any number of GC passes and reopens;
+   together with (4) this is one step of the induction over histories. *)
+Theorem C04_gc_keeps_invariant : forall g d,
+  db_ok d -> NoDup (map fst d) ->
+  (forall k b, read (gc_db g d) k b = read d k b) /\
+  db_ok (gc_db g d) /\ NoDup (map fst (gc_db g d)).
+Proof.
+  intros g d Hok Hnd. split; [|apply gc_db_ok; assumption].
+  intros. apply gc_invisible. apply db_ok_wf; assumption.
+Qed.
+Print Assumptions C04_gc_keeps_invariant.
+
+Theorem C04_step_keeps_invariant : forall g d o d',
+  db_ok d -> NoDup (map fst d) -> in_scope d o -> step true g d o = (d', None) ->
+  db_ok d' /\ NoDup (map fst d').
+Proof. exact step_keeps_invariant. Qed.
+Print Assumptions C04_step_keeps_invariant.
+
 (* ================================================================== reopen *)
 Theorem C04_reopen_invisible : forall d,
-  (forall k b, read (reopen_db d) k b = read d k b) /\ (wf_db d -> wf_db (reopen_db d)).
+  (forall k b, read (reopen_db d) k b = read d k b) /\ (wf_db d -> wf_db (reopen_db d)) /\
+  (db_ok d -> NoDup (map fst d) -> db_ok (reopen_db d)).
 Proof.
-  intros d. split; [intros; apply reopen_invisible|apply reopen_db_equiv].
+  intros d. split; [intros; apply reopen_invisible|]. split; [apply reopen_db_equiv|].
+  intros. apply reopen_db_ok; assumption.
 Qed.
 Print Assumptions C04_reopen_invisible.
 
